@@ -73,7 +73,15 @@ def main():
                     det[p]["tail"] = (r.stdout + r.stderr)[-600:]
             row = {"id": sid, "demo_clean_exit": clean, "demo_changed_exit": broken, "tests_pass_with_change": tests, "checks": det}
             rows.append(row)
-            json.dump(row, open(os.path.join(d, "result.json"), "w"), indent=1)
+            rp = os.path.join(d, "result.json")
+            if os.path.exists(rp):   # merge with earlier runs (other properties / test-suite result)
+                old = json.load(open(rp))
+                merged = dict(old.get("checks", {}))
+                merged.update(det)
+                row = dict(row, checks=merged)
+                if row["tests_pass_with_change"] is None:
+                    row["tests_pass_with_change"] = old.get("tests_pass_with_change")
+            json.dump(row, open(rp, "w"), indent=1)
             own = [p for p in meta["properties"] if det.get(p, {}).get("detected")]
             others = [p for p in det if det[p]["detected"] and p not in meta["properties"]]
             print(f"{sid:28s} demo clean/changed={clean}/{broken} tests_pass={tests} detected_by_own={own or 'NONE'} also={others}", flush=True)
